@@ -188,6 +188,14 @@ def run_config(ctx, case):
         ctx.tag("adjacent-floats", len(extra))
         ys = np.asarray(call(t.forward, xs2.copy()), dtype=float)
         fin = np.isfinite(ys)
+        # interior points of the domain (as the Jacobian defines it): forward must
+        # give a value there, otherwise "increasing" is meaningless
+        inter = ref.branch_distance(xs2) > 0
+        badf = np.where(inter & ~fin)[0]
+        ctx.check("forward.defined-in-domain", len(badf) == 0,
+                  keyb + "|forward-not-finite-in-domain", case,
+                  lambda: {"x": float(xs2[badf[0]]), "forward": float(ys[badf[0]]),
+                           "params": actual, "ctor": ctor})
         xs2, ys = xs2[fin], ys[fin]
         if len(xs2) >= 2:
             ctx.tag("monotone-pairs", len(xs2) - 1)
